@@ -379,6 +379,90 @@ class FiniteFam:
                 "batches_skipped_on_timeout": r["timeouts"], "exhaustive": False}
 
 
+class XlsxFaultsFam:
+    PROPS = ["C25"]
+    LEVEL = "fault_enumeration"
+    ASSUMPTIONS = ["base packages: one exported by the harness from a feature-rich workbook (formulas, arrays, styles, borders, sizes, hidden rows, frozen panes, several sheets with colour/hidden state, global and local names, a hyperlink, a conditional format) and six .xlsx files of the repository's own test data",
+                   "the vocabulary (parts, element and attribute counts) is read from these packages; XlsxFaults.tla enumerates every single fault over at most 12 (thorough 40) positions per part, spread over the part: drop / duplicate / empty an element, drop an attribute, replace its value by one of 6 garbage classes, truncate a part at 1/16, 8/16, 15/16, drop a part, truncate the zip at k/16, flip a byte in each sixteenth; thorough adds pairs of part-level faults and pairs of structural faults on different parts",
+                   "each damaged package goes through load_from_xlsx_bytes, Model::from_workbook and evaluate under catch_unwind; a call that does not return within 6 s is a timeout; a process abort is attributed to the slice of 64 plans being processed",
+                   "outcome must be ok or err; which one is not judged"]
+
+    @staticmethod
+    def run(d, tier, seed):
+        from vlib import ICVERIF
+        res = {"violations": {"C25": []}}
+        v, _ = icverif(["xlsxvocab", "--out", d])
+        cfg = open(os.path.join(SPEC, "XlsxFaults.cfg")).read()
+        if tier == "thorough":
+            cfg = cfg.replace("MaxIdx = 12", "MaxIdx = 40").replace("Pairs = FALSE", "Pairs = TRUE")
+        cfgp = os.path.join(d, "xf.cfg")
+        with open(cfgp, "w") as f:
+            f.write(cfg)
+        rc, out, dt = tlc("XlsxFaults.tla", cfgp, os.path.join(d, "meta"), workers=8, timeout=1700, env={"VOCAB": os.path.join(d, "vocab.ndjson")})
+        st = tlc_stats(out)
+        if st is None or "Error:" in out:
+            raise ToolError("XlsxFaults.tla failed:\n" + out[-3000:])
+        path = os.path.join(d, "plans.ndjson")
+        n = cases_from(out, path)
+        odir = os.path.join(d, "out")
+        skip = 0
+        total = {"cases": 0, "checks": 0, "distinct_nontrivial": 0, "samples": [], "timeouts": 0, "aborts": 0, "outcomes": {}}
+        seen = {}
+        for attempt in range(30):
+            for fn in ("TIMEOUT.json", "PROGRESS"):
+                try:
+                    os.remove(os.path.join(odir, fn))
+                except OSError:
+                    pass
+            p = subprocess.run([ICVERIF, "xlsxfaults", "--in", path, "--out", odir, "--skip", str(skip), "--seed", str(seed)], stdout=subprocess.PIPE, stderr=subprocess.DEVNULL, timeout=3500)
+            collect(res, "C25", os.path.join(odir, "mismatches.ndjson"), seen)
+            if p.returncode == 0:
+                rr = json.loads([l for l in p.stdout.decode("utf-8", "replace").splitlines() if l.startswith('{"ok"')][-1])["result"]
+                for k in ("cases", "checks", "distinct_nontrivial"):
+                    total[k] += rr[k]
+                total["samples"] += rr["samples"]
+                for k, x in rr["outcomes"].items():
+                    total["outcomes"][k] = total["outcomes"].get(k, 0) + x
+                total["packages"] = rr["packages"]
+                break
+            if p.returncode == 3 and os.path.exists(os.path.join(odir, "TIMEOUT.json")):
+                t = json.load(open(os.path.join(odir, "TIMEOUT.json")))
+                total["timeouts"] += 1
+                sig = "C25|timeout|" + "+".join(f["k"] for f in t["case"]["faults"])
+                if sig not in seen:
+                    vv = {"signature": sig, "what": f"import did not return within 6 s for fault plan {json.dumps(t['case'])[:300]}", "count": 1,
+                          "payload": {"property": "C25", "signature": sig, "case": t["case"]}}
+                    seen[sig] = vv
+                    res["violations"]["C25"].append(vv)
+                skip = t["index"]
+                continue
+            prog = 0
+            try:
+                prog = int(open(os.path.join(odir, "PROGRESS")).read().strip())
+            except Exception:
+                pass
+            total["aborts"] += 1
+            sig = "C25|abort|process"
+            if sig not in seen:
+                vv = {"signature": sig, "what": f"the import process aborted (exit {p.returncode}) while processing fault plans {prog}..{prog + 64}", "count": 1,
+                      "payload": {"property": "C25", "signature": sig, "case": {"plans": open(path).read().splitlines()[max(prog - 1, 0):prog + 64]}}}
+                seen[sig] = vv
+                res["violations"]["C25"].append(vv)
+            skip = prog + 64
+        res["tlc"] = {"states": st["distinct"], "transitions": st["generated"], "plans": n}
+        res["run"] = total
+        return res
+
+    @staticmethod
+    def evidence_for(prop, res):
+        r = res["run"]
+        return {"evaluations": r["checks"], "distinct_nontrivial": r["distinct_nontrivial"],
+                "rule": "fault plans enumerated by TLC from XlsxFaults.tla over the vocabulary of 7 real packages; distinct_nontrivial = distinct (fault kind, part class) combinations executed.",
+                "samples": (r["samples"][:2] or [{"note": "single-fault plans only in this tier", "example": {"k": "DropElem", "part": "xl/worksheets/sheet1.xml", "i": 1}}]),
+                "states": res["tlc"]["states"], "transitions": res["tlc"]["transitions"], "traces_validated_against_impl": r["cases"],
+                "outcomes": r["outcomes"], "timeouts": r["timeouts"], "aborts": r["aborts"], "packages": r.get("packages", []), "exhaustive": False}
+
+
 class Tokens:
     PROPS = ["C11"]
     LEVEL = "exploration"
@@ -483,4 +567,4 @@ def _wrap(cls, name):
     return (name, M)
 
 
-TABLE = {"C21": _wrap(Calendar, "calendar"), "C22": _wrap(Grid, "grid"), "C23": _wrap(Lang, "lang"), "C34": _wrap(F4, "f4"), "C19": _wrap(NumberInput, "numinput"), "C20": _wrap(NumberFormat, "numformat"), "C09": _wrap(Formula, "formula"), "C29": _wrap(ColAttrs, "colattrs"), "C30": _wrap(StylesFam, "styles"), "C11": _wrap(Tokens, "tokens"), "C08": _wrap(FiniteFam, "finite")}
+TABLE = {"C21": _wrap(Calendar, "calendar"), "C22": _wrap(Grid, "grid"), "C23": _wrap(Lang, "lang"), "C34": _wrap(F4, "f4"), "C19": _wrap(NumberInput, "numinput"), "C20": _wrap(NumberFormat, "numformat"), "C09": _wrap(Formula, "formula"), "C29": _wrap(ColAttrs, "colattrs"), "C30": _wrap(StylesFam, "styles"), "C11": _wrap(Tokens, "tokens"), "C08": _wrap(FiniteFam, "finite"), "C25": _wrap(XlsxFaultsFam, "xlsxfaults")}
